@@ -61,10 +61,11 @@ def find_workers(program):
 # ------------------------------------------------------------- events ---
 
 class Event:
-    __slots__ = ('kind', 'node', 'value', 'region', 'cond', 'where')
+    __slots__ = ('kind', 'node', 'value', 'region', 'cond', 'where', 'raw')
 
     def __init__(self, kind, node, value=None, region=None, cond=False,
-                 where=None):
+                 where=None, raw=False):
+        self.raw = raw          # written through env[...] without Env API
         self.kind = kind        # DO S P TASK_DONE NOTIFY
         self.node = node
         self.value = value      # for S: expression of the status
@@ -156,6 +157,34 @@ def stmt_events(wrk, func, stmt_or_expr, env_txt, task_txt, lexctx,
                     events += _inline_method(wrk, meth, call, 'self',
                                              task_txt, depth, cond)
                     continue
+        # env[<task>.name].update(status=..., ...): a write into the entry
+        # of the task that bypasses the Env API (and its lock)
+        if cname in ('update', 'setdefault', '__setitem__') and isinstance(
+                recv, ast.Subscript):
+            base = recv
+            while isinstance(base, ast.Subscript):
+                base = base.value
+            if dotted(base) in (env_txt, env_txt + '.dictionary'):
+                stat = None
+                for kwd in call.keywords:
+                    if kwd.arg == 'status':
+                        stat = kwd.value
+                for arg in call.args:
+                    if isinstance(arg, ast.Dict):
+                        for key, val in zip(arg.keys, arg.values):
+                            if isinstance(key, ast.Constant) and \
+                                    key.value == 'status':
+                                stat = val
+                if cname == '__setitem__' and len(call.args) == 2 and \
+                        isinstance(call.args[0], ast.Constant) and \
+                        call.args[0].value == 'status':
+                    stat = call.args[1]
+                if stat is not None:
+                    events.append(Event('S', call, stat, region, cond,
+                                        where, raw=True))
+                events.append(Event('P', call, None, region, cond, where,
+                                    raw=True))
+                continue
         if rtxt == wrk.queue and cname == 'task_done':
             events.append(Event('TASK_DONE', call, where=where))
             continue
@@ -188,10 +217,11 @@ def stmt_events(wrk, func, stmt_or_expr, env_txt, task_txt, lexctx,
                 if isinstance(last, ast.Constant) and last.value == 'status':
                     events.append(Event('S', stmt_or_expr,
                                         stmt_or_expr.value, region, cond,
-                                        func.where(stmt_or_expr)))
+                                        func.where(stmt_or_expr), raw=True))
                 else:
                     events.append(Event('P', stmt_or_expr, None, region,
-                                        cond, func.where(stmt_or_expr)))
+                                        cond, func.where(stmt_or_expr),
+                                        raw=True))
     return events
 
 
@@ -865,6 +895,29 @@ def analyse_worker(ctx):
     return wrk, interp, paths
 
 
+def check_raw_lock(ctx, shared=None):
+    '''Writes of the worker into the environment that bypass the Env API
+    must sit inside `with env.lock`.'''
+    wrk, interp, paths = shared or analyse_worker(ctx)
+    func = wrk.func
+    raw_seen = set()
+    for kind, state in paths:
+        for evt in state.events:
+            if evt.kind in ('S', 'P') and evt.raw and id(evt.node) not in \
+                    raw_seen:
+                raw_seen.add(id(evt.node))
+                ctx.decide('LOCK', func,
+                           f'{txt(evt.node)[:70]}: worker write into the '
+                           f'environment under the environment lock',
+                           evt.region is not None, at=evt.where,
+                           detail='the entry is written through env[...] '
+                                  'without the Env API and outside `with '
+                                  'env.lock`: the master, which decides '
+                                  'under the lock (atomically), can see the '
+                                  'status change between two of its tests'
+                           if evt.region is None else None)
+
+
 def check_pub(ctx, shared=None):
     wrk, interp, paths = shared or analyse_worker(ctx)
     func = wrk.func
@@ -902,6 +955,7 @@ def check_pub(ctx, shared=None):
                 reported.setdefault(
                     f'callable handed to atomically not resolved: '
                     f'{txt(evt.node)[:60]}', (None, evt.where, None))
+    check_raw_lock(ctx, (wrk, interp, paths))
     for key, (outcome, pwhere, swhere) in reported.items():
         ctx.decide('PUB', func, key, outcome, at=pwhere,
                    detail='a status that may be DONE is written (at '
@@ -1012,6 +1066,11 @@ def check_wrk2(ctx, shared=None):
                 seen.setdefault(f'{desc} writes constant {val[1]}'
                                 + (' on a failed-validation path'
                                    if not ok else ''), (ok, sev.where))
+            elif val[0] == 'validated' and state.failed_validation:
+                seen.setdefault(
+                    f'{desc} writes the status returned by the task on a '
+                    f'path where the result failed validation',
+                    (False, sev.where))
             elif val[0] == 'validated':
                 seen.setdefault(f'{desc} writes a validated status',
                                 (True, sev.where))
@@ -1024,9 +1083,14 @@ def check_wrk2(ctx, shared=None):
                                 (None, sev.where))
     for key, (outcome, where) in seen.items():
         ctx.decide('WRK-2', func, key, outcome, at=where or func.where(),
-                   detail='a status that is not a TaskStatus is stored '
-                          'verbatim and makes Env.get_status raise in the '
-                          'master' if outcome is False else None)
+                   detail=('a malformed result (exception, bad pair, bad '
+                           'update) must fail the task: here the status '
+                           'proposed by the task (possibly DONE) survives '
+                           'the failed validation'
+                           if 'failed validation' in key else
+                           'a status that is not a TaskStatus is stored '
+                           'verbatim and makes Env.get_status raise in the '
+                           'master') if outcome is False else None)
     s_nodes = {id(e.node) for _, st in paths for e in st.events
                if e.kind == 'S'}
     ctx.floor('WRK-2', len(s_nodes), 1, 'status writes in the worker')
